@@ -18,11 +18,11 @@ LABELS = {"sorted": [0, 0, 1, 1], "blocks-unsorted": [1, 1, 0, 0], "interleaved"
 
 
 def bounds(tier):
-    return dict(statistics=4 if tier == "quick" else 5, partitions="all compositions", ivector_partitions="1..9", C_D_r="ISV (2,1,1), JFA (1,1,1)")
+    return dict(statistics=4 if tier == "quick" else 5, partitions="all compositions", ivector_partitions="1..9", C_D_r="ISV (2,1,1), JFA (1,1,1)" + ("" if tier == "quick" else "; on one three-statistic label set also ISV (C,D,rU)=(2,2,1), (1,2,2) and JFA C=2"))
 
 
-def sc_fa_bag(B, kind, labels, comp, policy, isolated):
-    C, D, rU, rV = (2 if kind == "isv" else 1), 1, 1, 1
+def sc_fa_bag(B, kind, labels, comp, policy, isolated, dims=None):
+    C, D, rU, rV = dims or ((2 if kind == "isv" else 1), 1, 1, 1)
     n = len(labels)
     stats = [fa.make_stats(B, C, D, "s%d" % h)[0] for h in range(n)]
 
@@ -123,9 +123,9 @@ def sc_iv_reduction(B, nparts):
 EXECS = [("fifo", False), ("lifo", True)]
 
 
-def job_fa(P, kind, lname, comp):
+def job_fa(P, kind, lname, comp, dims=None):
     for pol, iso in EXECS:
-        P.run("bag-%s-%s" % (pol, "iso" if iso else "shared"), sc_fa_bag, dict(kind=kind, labels=LABELS[lname], comp=comp, policy=pol, isolated=iso), validate=1)
+        P.run("bag-%s-%s" % (pol, "iso" if iso else "shared"), sc_fa_bag, dict(kind=kind, labels=LABELS[lname], comp=comp, policy=pol, isolated=iso, dims=dims), validate=1)
 
 
 def job_iv(P, comp):
@@ -144,11 +144,16 @@ def job_red(P):
 def jobs(tier):
     out = [("ivector-reduction", "job_red", {})]
     if tier == "thorough":
-        LABELS.update({"five-sorted": [0, 0, 1, 1, 1], "five-mixed": [1, 0, 2, 0, 1]})
+        LABELS.update({"five-sorted": [0, 0, 1, 1, 1], "five-mixed": [1, 0, 2, 0, 1], "three": [1, 0, 1]})
     for kind in ("isv", "jfa"):
         for lname in LABELS:
             for comp in compositions(len(LABELS[lname])):
                 out.append(("%s-%s-%s" % (kind, lname, "+".join(map(str, comp))), "job_fa", dict(kind=kind, lname=lname, comp=comp)))
+    if tier == "thorough":
+        # larger models on one label set: ISV with two features, JFA with two components
+        for kind, dims in (("isv", (2, 2, 1, 1)), ("jfa", (2, 1, 1, 1)), ("isv", (1, 2, 2, 1))):
+            for comp in compositions(3):
+                out.append(("big-%s-%s-%s" % (kind, "x".join(map(str, dims)), "+".join(map(str, comp))), "job_fa", dict(kind=kind, lname="three", comp=comp, dims=dims)))
     for comp in [(1,), (2,), (1, 1), (2, 1), (1, 1, 1)] + ([(1, 2, 1), (1, 1, 1, 1, 1)] if tier == "thorough" else []):
         out.append(("ivector-%s" % "+".join(map(str, comp)), "job_iv", dict(comp=comp)))
     return out
